@@ -26,8 +26,12 @@ LeafS == Leaf0 \cup {FS(n) : n \in Atoms}
 SmallL == {L(e) : e \in SeqUpTo(Val0, 2)}
 SmallLT == {LT(e) : e \in SeqUpTo(LitH \cup {IsT(0)}, 2)}
 
+\* "flat": longer sequences of canonical atoms - every edit script of the alignment (deletions, insertions and
+\* replacements at several places, repeated values) with all lengths up to Width
+LitC == {Lit(n, TRUE) : n \in Atoms}
 Terms ==
-  CASE Shape = "seq" -> {LT(e) : e \in SeqUpTo(LeafS, Width)} \cup {TT(e) : e \in SeqUpTo(LeafS, Width)}
+  CASE Shape = "flat" -> {LT(e) : e \in SeqUpTo(LitC, Width)} \cup {TT(e) : e \in SeqUpTo(LitC, Width) \ {<<>>}}
+    [] Shape = "seq" -> {LT(e) : e \in SeqUpTo(LeafS, Width)} \cup {TT(e) : e \in SeqUpTo(LeafS, Width)}
     [] Shape = "nest" -> {LT(e) : e \in SeqUpTo(LitH \cup {IsT(1)} \cup SmallLT, 2)}
                          \cup {HT(v) : v \in SmallL} \cup {SL(v) : v \in SmallL}
                          \cup {LT(<<x, y>>) : x \in {SL(L(<<I(0)>>)), HT(L(<<I(1)>>))}, y \in LitH}
@@ -42,7 +46,8 @@ Terms ==
                                    kn \in SeqUpTo(1..3, 2), ke \in SeqUpTo(Leaf0, 2)} :
                              Len(c.kn) = Len(c.ke) /\ WellFormedCall(c)}
 Vals ==
-  CASE Shape = "seq" -> Val0 \cup {L(e) : e \in SeqUpTo(Val0, Width)} \cup {T(e) : e \in SeqUpTo(Val0, Width)}
+  CASE Shape = "flat" -> {L(e) : e \in SeqUpTo(Val0, Width)} \cup {T(e) : e \in SeqUpTo(Val0, Width)}
+    [] Shape = "seq" -> Val0 \cup {L(e) : e \in SeqUpTo(Val0, Width)} \cup {T(e) : e \in SeqUpTo(Val0, Width)}
     [] Shape = "nest" -> Val0 \cup {L(e) : e \in SeqUpTo(Val0 \cup SmallL, 2)}
     [] Shape = "inner" -> Val0 \cup {L(e) : e \in SeqUpTo(Val0 \cup SmallL, 2)} \cup {D(<<11>>, <<x>>) : x \in Val0}
                           \cup {D(<<12, 11>>, <<x, y>>) : x, y \in Val0}
